@@ -12,7 +12,11 @@ theorem step_done (s : St L) (c : Char) (a : Array (PNode L)) (hj : J s)
   split at h
   · cases h
   split at h
-  · cases h
+  · -- quote
+    split at h
+    · cases h
+    · unfold stepField at h
+      repeat' (first | cases h | split at h)
   · cases h
   · cases h
   · cases h
@@ -83,7 +87,20 @@ theorem step_no_panic (s : St L) (c : Char) : step parseLen s c ≠ .panic := by
   split at h
   · cases h
   split at h
-  · cases h
+  · next hcl =>
+    -- quote: outside a name it is an ordinary character; the comment field cannot be current here
+    split at h
+    · cases h
+    · unfold stepField at h
+      split at h
+      · cases h
+      · split at h <;> cases h
+      next hf =>
+        have : c = ']' := by
+          apply Classical.byContradiction; intro hne
+          exact hcm (by simp [hf, hne])
+        subst this
+        simp [classify] at hcl
   · cases h
   · cases h
   · cases h
